@@ -571,7 +571,7 @@ class SetGen:
                 seq_syn = syn['base']
             else:
                 seq_syn = syn['base']
-            cols.append({'name': self.names.fresh(hyphen_ok=False), 'syntax': syn, 'seq': seq_syn})
+            cols.append({'name': self.names.fresh(hyphen_ok=(rng.random() < 0.3)), 'syntax': syn, 'seq': seq_syn})   # (hyphens are legal in SMIv1 descriptors and met in the field)
         add({'kind': 'objectType', 'name': tname, 'syntax': {'seqof': seqname}, 'units': None, 'access': 'not-accessible',
              'status': 'current', 'description': self.text(), 'reference': None, 'oidparts': parts, 'defval': None}, toid,
             nodetype='table')
